@@ -159,11 +159,21 @@ structure Resp (B : Type) where
   body : B
   collected : Bool
 
+/-- what is handed to `restricted_registry`: the values of `params['name[]']` as they are (`nameValueSplit = []`, the
+source as it is), or — a variant the extractor recognises — every `str` value first split on a separator, empty pieces
+dropped when `nameValueDropEmpty` -/
+def restrictionNames (vs : List PyKey) : List PyKey :=
+  match nameValueSplit with
+  | [c] => vs.flatMap fun
+      | .str s => ((splitOn c s).filter fun p => !(nameValueDropEmpty && p.isEmpty)).map PyKey.str
+      | .bytes b => [.bytes b]
+  | _ => vs
+
 /-- `_bake_output(registry, accept_header, accept_encoding_header, params, disable_compression)`.
 `'name[]' in params` and `params['name[]']` use the same literal (checked by the extractor), so both are one lookup. -/
 def bakeOutput {B : Type} (env : Env B) (accept acceptEnc : Option Str) (params : Params) (disable : Bool) : Resp B :=
   let ec := chooseEncoder accept
-  let restr := params.lookup (PyKey.str nameKey)
+  let restr := (params.lookup (PyKey.str nameKey)).map restrictionNames
   let output := env.expo ec.1 restr
   let headers := [(contentTypeHeader, ec.2)]
   if (!compressNeedsEnabled || !disable) && (!compressNeedsAccepted || gzipAccepted acceptEnc) then
